@@ -453,6 +453,157 @@ def check_mirror(ctx, rep, rule='M-mirror'):
     rep.floor(rule, 'SplaySet delegations', n, 18)
 
 
+# ------------------------------------------------------------------ what the thin wrappers return (M-returns)
+
+def _result_shape(v, p, target, assume):
+    """what a wrapper returns, as a function of the delegate's result: 'result', 'none', 'some(result)', 'some(result.0)',
+    True / False, or ('other', text).  `assume` is 'none' / 'some' (what this row assumes about an Option result) or None."""
+    x = strip_upd(v)
+
+    def is_result(y):
+        y = strip_upd(y)
+        if y[0] == 'ref' and y[1][0][0] == 'loc' and p is not None:
+            y = strip_upd(p.final.mem.get(y[1], y))
+        return y[0] in ('call', 'pcall') and y[1] == target
+
+    if is_result(x):
+        return 'result'
+    if sym.is_const(x) and isinstance(x[1], bool):
+        return bool(x[1])
+    if x[0] == 'op' and x[1] == 'not':
+        r = _result_shape(x[2], p, target, assume)
+        return (not r) if isinstance(r, bool) else ('other', show(noepoch(x))[:80])
+    if x[0] in ('pcall', 'call') and re.search(r'Option::<T>::is_(none|some)$', x[1]) and len(x[2]) == 1 and is_result(x[2][0]):
+        if assume is None:
+            return ('needs-assumption', x[1].split('::')[-1])
+        return (assume == 'none') == x[1].endswith('is_none')
+    if x[0] == 'op' and x[1] in ('eq', 'ne') and len(x) == 4:
+        a, b = strip_upd(x[2]), strip_upd(x[3])
+        for l_, r_ in ((a, b), (b, a)):
+            if l_[0] == 'discr' and is_result(l_[1]) and sym.is_const(r_):
+                if assume is None:
+                    return ('needs-assumption', 'discr')
+                return ((assume == 'some') == (int(r_[1]) == 1)) == (x[1] == 'eq')
+    if x[0] == 'agg' and x[5].endswith('Option'):
+        if x[2] == 'None':
+            return 'none'
+        pl = strip_upd(x[4][0])
+        if pl[0] == 'field' and str(pl[2]) == '0' and strip_upd(pl[1])[0] == 'variant' and is_result(strip_upd(pl[1])[1]):
+            return 'some(result)'
+        if pl[0] == 'field' and str(pl[2]) == '0':
+            q = strip_upd(pl[1])
+            if q[0] == 'field' and str(q[2]) == '0' and strip_upd(q[1])[0] == 'variant' and is_result(strip_upd(q[1])[1]):
+                return 'some(result.0)'
+    return ('other', show(noepoch(x))[:80])
+
+
+def _wrapper_table(ps, target):
+    """{assumption: set of shapes} over the returning paths of a thin wrapper around one call of `target`"""
+    table = {'none': set(), 'some': set()}
+    for p in ps:
+        if p.end != 'return':
+            continue
+        assume = None
+        ok = True
+        for (v, c) in p.conds:
+            x = strip_upd(v)
+            if x[0] == 'discr' and strip_upd(x[1])[0] in ('call', 'pcall') and strip_upd(x[1])[1] == target:
+                if c[0] == 'eq':
+                    assume = 'some' if int(c[1]) == 1 else 'none'
+                elif c[0] == 'notin':
+                    assume = 'none' if 1 in [int(z) for z in c[1]] else 'some'
+            else:
+                ok = False
+        for a in ([assume] if assume else ['none', 'some']):
+            table[a].add(_result_shape(p.ret, p, target, a) if ok else ('other', 'the result depends on %s' % show(noepoch(p.conds[0][0]))[:60]))
+    return table
+
+
+def _int_eval(v, leaf_ok, n):
+    """value of an integer / bool expression over one leaf (the element count), None when it is anything else"""
+    x = strip_upd(v)
+    if sym.is_const(x):
+        return x[1]
+    if leaf_ok(x):
+        return n
+    if x[0] == 'op' and x[1] == 'not':
+        r = _int_eval(x[2], leaf_ok, n)
+        return None if r is None else (not r)
+    if x[0] == 'op' and len(x) == 4 and x[1] in ('eq', 'ne', 'lt', 'le', 'gt', 'ge'):
+        a, b = _int_eval(x[2], leaf_ok, n), _int_eval(x[3], leaf_ok, n)
+        if a is None or b is None:
+            return None
+        return {'eq': a == b, 'ne': a != b, 'lt': a < b, 'le': a <= b, 'gt': a > b, 'ge': a >= b}[x[1]]
+    return None
+
+
+def check_returns(ctx, rep, rule='M-returns'):
+    """the wrappers of SplaySet (and the element-count accessors) return what a sorted set returns, as a function of what the
+    tree method they delegate to returned: insert = "was absent", remove = "was present", next/prev/iteration = the key of the
+    pair, is_empty = (len == 0).  Evaluated per outcome of the delegate (None / Some), so `is_none()`, `!is_some()`, a match
+    and `map_or(true, |_| false)` are the same thing to the rule."""
+    S = 'splay::set::SplaySet::<T, C>::'
+    SI_ = '<splay::set::IntoIter<T> as std::iter::'
+    TI_ = '<splay::tree::IntoIter<K, V> as std::iter::'
+    ident = {'none': {'none', 'result'}, 'some': {'some(result)', 'result'}}
+    key = {'none': {'none'}, 'some': {'some(result.0)'}}
+    spec = [(S + 'insert', T + 'insert', {'none': {True}, 'some': {False}}, 'true exactly when the key was absent'),
+            (S + 'remove', T + 'remove', {'none': {False}, 'some': {True}}, 'true exactly when the key was present'),
+            (S + 'next', T + 'next', key, 'the key of the successor pair'),
+            (S + 'prev', T + 'prev', key, 'the key of the predecessor pair'),
+            (SI_ + 'Iterator>::next', TI_ + 'Iterator>::next', key, 'the key of the pair'),
+            (SI_ + 'DoubleEndedIterator>::next_back', TI_ + 'DoubleEndedIterator>::next_back', key, 'the key of the pair'),
+            (S + 'contains', T + 'contains', ident, 'the result unchanged'),
+            (S + 'find', T + 'find_key', ident, 'the result unchanged'),
+            (S + 'min', T + 'min', ident, 'the result unchanged'),
+            (S + 'max', T + 'max', ident, 'the result unchanged'),
+            (S + 'len', T + 'len', ident, 'the result unchanged')]
+    n = 0
+    for name, target, exp, text in spec:
+        b, ps = rep.explore(ctx, name, rule, opaque=('splay::tree::',))
+        if b is None:
+            continue
+        tab = _wrapper_table(ps, target)
+        ok = all(tab[a] and tab[a] <= exp[a] for a in ('none', 'some'))
+        n += 1
+        rep.ob(rule, 'returns:%s' % short(name), ok,
+               '%s must return %s (delegate: %s); per outcome of the delegate it returns %s' % (short(name), text, short(target),
+                                                                                      dict((a, sorted(map(str, tab[a]))) for a in tab)),
+               loc=b.loc(b.j['line_lo']), reason='table-row')
+        # the key handed on is the caller's
+        for p in ps:
+            for e in p.calls():
+                if e['callee'] == target:
+                    rest = [strip_upd(a) for a in e['args'][1:]]
+                    good = all(a[0] == 'param' or (a[0] == 'agg' and not a[4]) for a in rest)
+                    rep.ob(rule, 'arguments:%s' % short(name), good, '%s must hand its own argument to %s' % (short(name), short(target)),
+                           loc=b.loc(e['line']), reason='provenance')
+    # element counts: len() is the cached size, is_empty() is len() == 0
+    for name, leaf in ((S + 'is_empty', r'(SplayTree::<K, V, C>::len$|SplaySet::<T, C>::len$)'), (T + 'is_empty', None), (T + 'len', None)):
+        b, ps = rep.explore(ctx, name, rule, opaque=('splay::tree::',) if leaf else ())
+        if b is None:
+            continue
+
+        def leaf_ok(x, leaf=leaf):
+            if leaf and x[0] in ('call', 'pcall') and re.search(leaf, x[1]):
+                return True
+            while x[0] == 'deref':
+                x = strip_upd(x[1])
+            return x[0] == 'field' and x[2] == 'size' and not leaf
+        rets = [p.ret for p in ps if p.end == 'return']
+        ok = bool(rets) and all(not p.conds for p in ps if p.end == 'return')
+        if name.endswith('::len'):
+            ok = ok and all(_int_eval(r, leaf_ok, 7) == 7 for r in rets)
+            what = 'the cached element count'
+        else:
+            ok = ok and all([_int_eval(r, leaf_ok, k) for k in (0, 1, 2)] == [True, False, False] for r in rets)
+            what = 'true exactly when the element count is 0'
+        n += 1
+        rep.ob(rule, 'returns:%s' % short(name), ok, '%s must return %s; it returns %s' % (short(name), what, [show(noepoch(r))[:60] for r in rets]),
+               loc=b.loc(b.j['line_lo']), reason='table-row')
+    rep.floor(rule, 'wrappers evaluated', n, 14)
+
+
 def first_diff(a, b):
     for x, y in zip(a, b):
         if x != y:
